@@ -688,3 +688,21 @@ Example old_check_cache_stale :
   snd (tstep exO t1 (GetCoverageFor 0)) = OVal 4 /\ tC exO 0 (content t1) = 2 /\
   snd (tstep exO (fst (tstep exO t0 GetFitness)) (GetCoverageFor 0)) = OVal 2.
 Proof. vm_compute. repeat split; reflexivity. Qed.
+
+(* The covered verdict that the cache derives from a fitness value is "fitness = 0" EXACTLY
+   (math.isclose(v, 0.0) without absolute tolerance is v == 0.0): a tiny non-zero fitness
+   (a near miss of a float comparison) is never cached as covered. *)
+Lemma lookup_put_same {V} k (v : V) l : lookup k (put k v l) = Some v.
+Proof.
+  induction l as [|[k' v'] r IH]; simpl; [now rewrite Z.eqb_refl|].
+  destruct (Z.eqb k k') eqn:E; simpl; [now rewrite Z.eqb_refl|now rewrite E].
+Qed.
+
+Theorem fitness_verdict_exact {B R} (run : B -> bool -> (B * bool) * R) F K C (o : cobj B) f :
+  has f (fit o) = false ->
+  exists v, lookup f (fit (one run F K C WFit o f)) = Some v /\
+            lookup f (isc (one run F K C WFit o f)) = Some (v =? 0).
+Proof.
+  intros H. unfold one. rewrite H. destruct (exec run o) as [o1 r]. simpl.
+  exists (F f r). split; apply lookup_put_same.
+Qed.
